@@ -4,6 +4,7 @@
   C03.R2  single re-orientation into user subject/object order on every path from a query result to a bucket
   C03.R3  nothing dropped: every bucket is rendered, every pair gets a line, de-duplication by full text, sorted
   C03.R4  missing-import lines group by subject and list all objects
+  C03.R5  the query result stored for one key depends on that key only (no state shared between the searches of one batch)
 """
 
 from __future__ import annotations
@@ -255,4 +256,13 @@ def run(repo: Repo) -> Result:
     run_r1(repo, res)
     run_r2(repo, res, inl)
     run_r3_r4(repo, res)
+    # R5: the result stored for one (subject, object) key depends on that key only - otherwise a 'does not import' line can be
+    # produced for a subject whose import was credited to another key of the same batch
+    from . import c11
+
+    tmp = Result("C11")
+    c11.run_r4(repo, tmp)
+    for o in tmp.obligations:
+        res.add("C03.R5", o.construct, o.ok, o.detail, o.where, o.nontrivial, o.kind)
+    res.floor("C03.R5", 12, len(tmp.obligations))
     return res
